@@ -11,6 +11,10 @@
 #include "utils.h"
 #include "value.h"
 
+#ifdef CHESSPP_VERIF
+#include "verif_hooks.h"
+#endif
+
 #include <algorithm>
 #include <chrono>
 #include <cmath>
@@ -177,9 +181,18 @@ void Search::stop()
 
 void Search::go()
 {
+#ifdef CHESSPP_VERIF
+    verif::at(verif::GO_ENTRY, this);
+#endif
     init_search();
+#ifdef CHESSPP_VERIF
+    verif::at(verif::GO_AFTER_INIT, this);
+#endif
     stop_search = false;
     _start_time = std::chrono::steady_clock::now();
+#ifdef CHESSPP_VERIF
+    verif::at(verif::GO_AFTER_RESET, this);
+#endif
 
     // check if there is only one move to make
     if (_root_moves.size() == 1)
@@ -189,6 +202,9 @@ void Search::go()
     iter_search();
 
     ASSERT(_best_move != NO_MOVE);
+#ifdef CHESSPP_VERIF
+    verif::at(verif::BEFORE_BESTMOVE, this);
+#endif
     sync_cout << "bestmove " << _position.uci(_best_move) << sync_endl;
 }
 
@@ -260,6 +276,9 @@ void Search::iter_search()
     while (!stop_search)
     {
         _current_depth++;
+#ifdef CHESSPP_VERIF
+        verif::at(verif::ITER_BEGIN, this);
+#endif
 
         _stats = SearchStats{};
 
@@ -307,6 +326,10 @@ void Search::iter_search()
         elapsed = std::chrono::duration_cast<std::chrono::milliseconds>(
                       end_time - _start_time)
                       .count();
+#ifdef CHESSPP_VERIF
+        if (verif::virtual_clock.load()) elapsed = verif::virtual_elapsed_ms.load();
+        verif::at(verif::ITER_END, this);
+#endif
 
         if (!stop_search)
         {
@@ -329,6 +352,9 @@ Value Search::search(Position& position, Depth depth, Value alpha, Value beta,
                      Info* info)
 {
     ASSERT(alpha < beta);
+#ifdef CHESSPP_VERIF
+    verif::at(verif::NODE, this);
+#endif
 
     info->_ply = (info - 1)->_ply + 1;
     clear_pv_list(info);
@@ -648,6 +674,9 @@ Value Search::quiescence_search(Position& position, Depth depth, Value alpha,
                                 Value beta, Info* info)
 {
     ASSERT(alpha < beta);
+#ifdef CHESSPP_VERIF
+    verif::at(verif::QNODE, this);
+#endif
 
     info->_ply = (info - 1)->_ply + 1;
     clear_pv_list(info);
@@ -770,6 +799,9 @@ bool Search::check_limits()
     int64_t elapsed = std::chrono::duration_cast<std::chrono::milliseconds>(
                           end_time - _start_time)
                           .count();
+#ifdef CHESSPP_VERIF
+    if (verif::virtual_clock.load()) elapsed = verif::virtual_elapsed_ms.load();
+#endif
 
     if (elapsed >= _search_time)
     {
